@@ -165,6 +165,14 @@ def run(ctx):
                     # the three members stored at once: offset_hist = [a, b, c]
                     for i_, el_ in enumerate(hq.peel(n["r"])["elems"]):
                         asg["offset_hist[%d]" % i_] = _le_src(ix, el_)
+        if "id" not in asg:
+            # `id` given in the struct literal that creates the dictionary
+            for l_ in hq.struct_lits(body["body"], "Dictionary"):
+                for f_ in l_["fields"]:
+                    if f_["name"] == "id":
+                        v_ = _le_src(ix, f_["e"])
+                        if v_ is not None:
+                            asg["id"] = v_
         tail = chain[-1] + "[%s..]" % _result_name(ix, calls[-1]) if calls else "?"
         want_asg = {"id": "$0[4..8]", "offset_hist[0]": tail + "[..4]", "offset_hist[1]": tail + "[4..8]",
                     "offset_hist[2]": tail + "[8..12]"}
@@ -217,7 +225,8 @@ def run(ctx):
         body = ctx.hir(FD + "::reset")
         ix = hq.Index(body)
         s = hq.calls_to(body["body"], "init_from_dict")[0]
-        conds = [p["cond"] for p in ix.path_conditions(s) if p["kind"] == "if"]
+        # `if let Some(id) = header.dictionary_id() { .. }`, or `let Some(id) = .. else { return Ok(()) }` before it
+        conds = [p["cond"] for p in ix.path_conditions(s) if p["kind"] in ("if", "let-else", "guard-else", "arm")]
         ctx.check(any("FrameHeader::dictionary_id" in c and c.startswith("some(") for c in conds), R3, "reset::selected-by-frame-id",
                   H.loc(body, s), "reset must select the dictionary by the frame header's dictionary id", observed=conds)
     ctx.guard(R3, "reset::selected-by-frame-id", reset_iff_id)
